@@ -11,7 +11,7 @@ from __future__ import annotations
 
 import json
 
-from .common import Result, load_known, match_known, run_venv
+from .common import Result, load_known, match_known, run_venv, tierb_json
 
 
 def run(tier: str, seed: int) -> int:
@@ -23,20 +23,20 @@ def run(tier: str, seed: int) -> int:
     if p.returncode not in (0, 1):
         R.engine_errors.append("tier-B failed: " + p.stderr[-300:])
     else:
-        bounded = json.loads(p.stdout)
+        bounded = tierb_json(p, R)
         for f in bounded.get("failures", []):
             k = match_known(known, "C04", {"cfg": "printer", "clause": f["clause"], "shape": {}, "cases": [], "detail": f["detail"]})
             if k is not None:
                 R.known(k)
                 continue
             R.violation(f"bounded check on real code: {f['clause']}: {f['detail'][:300]}", {"failure": f}, True)
-    depth, cap = (2, 120) if tier == "quick" else (3, 300)
+    depth, cap = (3, 300) if tier == "quick" else (4, 1500)
     p2 = run_venv("rewrite_bfs.py", [str(depth), str(cap), "16"], timeout=7200)
     bfs = {}
     if p2.returncode != 0:
         R.engine_errors.append("tier-B BFS failed: " + p2.stderr[-300:])
     else:
-        bfs = json.loads(p2.stdout)
+        bfs = tierb_json(p2, R)
         for f in bfs.get("failures", []):
             if f["clause"] not in ("prints-and-reparses", "same-variables", "closure/constant-payload"):
                 continue
